@@ -32,9 +32,54 @@ elab "tie_case" : tactic => withMainContext do
   match findInnermostCall t with
   | none => throwError "tie_case: no instrumented call left in the goal"
   | some e =>
-    let (_, g') ← g.generalize #[{ expr := e, xName? := some `tie_r }]
-    replaceMainGoal [g']
+    let stx ← Term.exprToSyntax e
     let r := mkIdent `tie_r
-    evalTactic (← `(tactic| rcases $r:ident with ⟨_ | _, _⟩))
+    evalTactic (← `(tactic| (generalize $stx = $r:ident at *; rcases $r:ident with ⟨_ | _, _⟩)))
+
+
+/-- a closed, fully applied call of a translated method (`Src.fileutils.AtomicSaver.<m> sys self … w`: its type is a
+    triple) that is still in the goal -/
+partial def findCallee (e : Expr) : MetaM (Option Expr) := do
+  let sub : Option Expr → MetaM (Option Expr) := fun o => pure o
+  match e with
+  | .app f a =>
+    if let some r ← findCallee f then return some r
+    if let some r ← findCallee a then return some r
+    if e.hasLooseBVars then return none
+    match e.getAppFn with
+    | .const n _ =>
+      if (`Src.fileutils.AtomicSaver).isPrefixOf n && !(n.toString.endsWith ".body") then
+        let t ← whnfR (← inferType e)
+        if t.isAppOf ``Prod then return some e else return none
+      else return none
+    | _ => return none
+  | .lam _ t b _ => do
+    if let some r ← findCallee t then return some r
+    findCallee b
+  | .forallE _ t b _ => do
+    if let some r ← findCallee t then return some r
+    findCallee b
+  | .letE _ t v b _ => do
+    if let some r ← findCallee t then return some r
+    if let some r ← findCallee v then return some r
+    findCallee b
+  | .mdata _ b => findCallee b
+  | .proj _ _ b => findCallee b
+  | _ => sub none
+
+/-- `tie_callee`: name the result of the translated method call that is stuck in the goal (everywhere, also in the
+    hypotheses: its tie theorem is one of them) and split it into value, object state and world -/
+elab "tie_callee" : tactic => withMainContext do
+  let g ← getMainGoal
+  let t ← instantiateMVars (← g.getType)
+  match ← findCallee t with
+  | none => throwError "tie_callee: no call of a translated method left in the goal"
+  | some e =>
+    let stx ← Term.exprToSyntax e
+    let r := mkIdent `tie_res
+    let a := mkIdent `tie_val
+    let b := mkIdent `tie_st
+    let c := mkIdent `tie_w
+    evalTactic (← `(tactic| (generalize $stx = $r:ident at *; obtain ⟨$a, $b, $c⟩ := $r:ident)))
 
 end C05
